@@ -26,7 +26,8 @@ inductive Tok where
   | bad
   deriving Repr, DecidableEq
 
-/-- `Text._clean` (since f945b9c: the same encodings as `util.clean`, a value above 1e30 is missing) -/
+/-- `Text._clean` (since f945b9c: the same encodings as `util.clean`, a value above 1e30 is missing; a nan token
+is NaN either way — the code's extra `or np.isnan(fvalue)` only makes it the np.nan singleton: `textClean_eq`) -/
 def textClean : Tok → XR
   | .bad => .nan
   | .num v => if XR.eqb v (.fin (-999)) || XR.gt v (.fin 1000000000000000019884624838656) then .nan else v
